@@ -1,86 +1,102 @@
 ---------------------------- MODULE MC_ScmpTables ----------------------------
-(* Decision tables of Scmp as state spaces of one-step behaviours (Init-only):  *)
-(*   TABLE = "quote": every (error kind, SCION header size 36..1020, offender     *)
+(* Decision tables of Scmp as one state space of one-step behaviours (Init-only); *)
+(* every cell carries its table name in `tab`; TABLES selects the tables of a run: *)
+(*   "quote": every (error kind, SCION header size 36..1020, offender             *)
 (*           length in {0, 1, budget-1, budget, budget+1, 9216})                 *)
-(*   TABLE = "quote_dense": ParameterProblem x the three header sizes of the SNAP *)
+(*   "quote_dense": ParameterProblem x the three header sizes of the SNAP         *)
 (*           gateway (36, 48, 60) x EVERY offender length 0..9216                *)
-(*   TABLE = "reply": every received SCMP message descriptor                     *)
+(*   "reply": every received SCMP message descriptor                             *)
 (*           (type 0..255) x (bytes present) x (truncated datagram, checksum)    *)
 (*           x (path reversible) x (addresses decodable)                         *)
-(*   TABLE = "router": every offending packet descriptor at a simulated router   *)
+(*   "router": every offending packet descriptor at a simulated router (also as   *)
+(*           a request to the router's own echo / traceroute service)            *)
 (* Invariants = P-layer evaluated on the I-layer's answer.  GEN = TRUE prints    *)
 (* each cell with the I-layer's expectation (replayed on the real code).         *)
+(* The ASSUMEs are the oracle self-checks: each broken variant of the I-layer    *)
+(* violates its P-invariant on at least one cell.                                *)
 EXTENDS Scmp, Json, TLC
 
-CONSTANTS TABLE, GEN, BROKENQ
+CONSTANTS TABLES, GEN
 
 VARIABLE cell
 
 OffLens(k, h) == {0, 1, Budget(k, h) - 1, Budget(k, h), Budget(k, h) + 1, 9216}
-QuoteCells == UNION {{[kind |-> k, hdr |-> h, off |-> o] : o \in OffLens(k, h)} : k \in ErrKinds, h \in HdrLens}
-
-DenseCells == {[kind |-> "ParamProblem", hdr |-> h, off |-> o] : h \in {36, 48, 60}, o \in 0..9216}
-IsQuote == TABLE \in {"quote", "quote_dense"}
+QuoteCells == UNION {{[tab |-> "quote", kind |-> k, hdr |-> h, off |-> o] : o \in OffLens(k, h)} : k \in ErrKinds, h \in HdrLens}
+DenseCells == {[tab |-> "quote_dense", kind |-> "ParamProblem", hdr |-> h, off |-> o] : h \in {36, 48, 60}, o \in 0..9216}
 
 Haves == {0, 3, 4, 7, 8, 9, 12, 19, 20, 23, 24, 27, 28, 40, 200, 1300}
 \* (trunc, ck): a truncated datagram never verifies
 TC == {<<FALSE, TRUE>>, <<FALSE, FALSE>>, <<TRUE, FALSE>>}
-ReplyCells == {[t |-> t, have |-> n, trunc |-> tc[1], ck |-> tc[2], rev |-> r, addr |-> a] :
+ReplyCells == {[tab |-> "reply", t |-> t, have |-> n, trunc |-> tc[1], ck |-> tc[2], rev |-> r, addr |-> a] :
                  t \in 0..255, n \in Haves, tc \in TC, r \in BOOLEAN, a \in BOOLEAN}
 Desc(c) == [t |-> c.t, complete |-> (~c.trunc /\ c.have >= Fixed(c.t)), ck |-> c.ck,
             parsed |-> c.have >= ParseFixed(c.t), rev |-> c.rev, addr |-> c.addr]
 
 \* offending packets at a router: non-SCMP, or SCMP with `have` payload bytes of type t
-RouterCells == {[scmp |-> FALSE, t |-> 0, have |-> 0, ck |-> TRUE]} \cup
-               {[scmp |-> TRUE, t |-> t, have |-> n, ck |-> k] : t \in 0..255, n \in {0, 3, 4, 7, 8, 24, 28}, k \in BOOLEAN}
+RouterCells == {[tab |-> "router", scmp |-> FALSE, t |-> 0, have |-> 0, ck |-> TRUE]} \cup
+               {[tab |-> "router", scmp |-> TRUE, t |-> t, have |-> n, ck |-> k] : t \in 0..255, n \in {0, 3, 4, 7, 8, 24, 28}, k \in BOOLEAN}
 ODesc(c) == [scmp |-> c.scmp, t |-> c.t, has4 |-> c.have >= 4, parsed |-> c.have >= ParseFixed(c.t)]
-\* the same packet as a message descriptor for the router's own echo service
+\* the same packet as a message descriptor for the router's own echo / traceroute service
 RDesc(c) == [t |-> c.t, complete |-> c.have >= Fixed(c.t), ck |-> (c.ck /\ c.have >= 4), parsed |-> c.have >= ParseFixed(c.t), rev |-> TRUE, addr |-> TRUE]
 
-Cells == IF TABLE = "quote" THEN QuoteCells ELSE IF TABLE = "quote_dense" THEN DenseCells
-         ELSE IF TABLE = "reply" THEN ReplyCells ELSE RouterCells
+Cells == (IF "quote" \in TABLES THEN QuoteCells ELSE {}) \cup (IF "quote_dense" \in TABLES THEN DenseCells ELSE {})
+         \cup (IF "reply" \in TABLES THEN ReplyCells ELSE {}) \cup (IF "router" \in TABLES THEN RouterCells ELSE {})
 
 Init == cell \in Cells
 Next == UNCHANGED cell
 Spec == Init /\ [][Next]_cell
 
+IsQuote == cell.tab \in {"quote", "quote_dense"}
+IsReply == cell.tab = "reply"
+IsRouter == cell.tab = "router"
+
 (* ------------------------------ invariants --------------------------------- *)
 \* (a) P: the I-layer's packet never exceeds 1232 bytes and its quote is a prefix (by length) of the offender
-QuoteBounded == IsQuote => PBounded(ImplTotal(cell.kind, cell.hdr, cell.off, BROKENQ))
-QuoteIsPrefixLen == IsQuote => ImplQuoteLen(cell.kind, cell.hdr, cell.off, BROKENQ) <= cell.off
+QuoteBounded == IsQuote => PBounded(ImplTotal(cell.kind, cell.hdr, cell.off, FALSE))
+QuoteIsPrefixLen == IsQuote => ImplQuoteLen(cell.kind, cell.hdr, cell.off, FALSE) <= cell.off
 \* conformance of the transcription with the closed form of DESIGN.md (maximal quote)
-QuoteMaximal == (IsQuote /\ ~BROKENQ) =>
+QuoteMaximal == IsQuote =>
                   /\ ImplQuoteLen(cell.kind, cell.hdr, cell.off, FALSE) = QuoteLen(cell.kind, cell.hdr, cell.off)
                   /\ ImplTotal(cell.kind, cell.hdr, cell.off, FALSE) = Total(cell.kind, cell.hdr, cell.off)
                   /\ Budget(cell.kind, cell.hdr) >= 184      \* the saturating subtractions never saturate
 
 \* (b) P on the end-host handlers
-EchoAnswered == TABLE = "reply" => (PMustAnswerEcho(Desc(cell)) => EchoHandler(Desc(cell)) = 1)
-NoReplyToErrorOrMalformed == TABLE = "reply" => (PMustNotAnswer(Desc(cell)) => EchoHandler(Desc(cell)) = 0)
-ErrorsNotified == TABLE = "reply" => (PMustNotify(Desc(cell)) => ErrorHandler(Desc(cell)) = 1)
-AtMostOneReply == TABLE = "reply" => EchoHandler(Desc(cell)) <= 1
+EchoAnswered == IsReply => (PMustAnswerEcho(Desc(cell)) => EchoHandler(Desc(cell)) = 1)
+NoReplyToErrorOrMalformed == IsReply => (PMustNotAnswer(Desc(cell)) => EchoHandler(Desc(cell)) = 0)
+ErrorsNotified == IsReply => (PMustNotify(Desc(cell)) => ErrorHandler(Desc(cell)) = 1)
+AtMostOneReply == IsReply => EchoHandler(Desc(cell)) <= 1
 
 \* (b') P on the simulated router
-RouterNeverAnswersError == TABLE = "router" => (PRouterMustNotAnswer(ODesc(cell)) => RouterAnswers(ODesc(cell)) = 0)
-RouterEchoAnswered == (TABLE = "router" /\ cell.scmp) => (Class(RDesc(cell)) = "echo_req" => RouterEcho(RDesc(cell)) = 1)
-RouterEchoNoReplyToErrorOrMalformed == (TABLE = "router" /\ cell.scmp) => (PMustNotAnswer(RDesc(cell)) => RouterEcho(RDesc(cell)) = 0)
+RouterNeverAnswersError == IsRouter => (PRouterMustNotAnswer(ODesc(cell)) => RouterAnswers(ODesc(cell)) = 0)
+RouterEchoAnswered == (IsRouter /\ cell.scmp) => (Class(RDesc(cell)) = "echo_req" => RouterEcho(RDesc(cell)) = 1)
+RouterEchoNoReplyToErrorOrMalformed == (IsRouter /\ cell.scmp) => (PMustNotAnswer(RDesc(cell)) => RouterEcho(RDesc(cell)) = 0)
+
+(* ------------------------- oracle self-checks ------------------------------- *)
+\* budget that forgets the SCMP header
+ASSUME SelfCheckQuote == \E c \in QuoteCells : ~PBounded(ImplTotal(c.kind, c.hdr, c.off, TRUE))
+\* receivers that do not verify the checksum
+ASSUME SelfCheckReply == \E c \in ReplyCells : PMustNotAnswer(Desc(c)) /\ EchoHandlerV(Desc(c), FALSE) = 1
+\* routers that know only the five listed error types
+ASSUME SelfCheckRouter == \E c \in RouterCells : PRouterMustNotAnswer(ODesc(c)) /\ RouterAnswersV(ODesc(c), FALSE) = 1
+ASSUME SelfCheckRouterEcho == \E c \in RouterCells : c.scmp /\ PMustNotAnswer(RDesc(c)) /\ RouterEchoV(RDesc(c), FALSE) = 1
 
 (* ------------------------------ generation --------------------------------- *)
 Out == IF IsQuote THEN
-         [kind |-> cell.kind, t |-> ScmpType(cell.kind), hdr |-> cell.hdr, off |-> cell.off,
+         [tab |-> cell.tab, kind |-> cell.kind, t |-> ScmpType(cell.kind), hdr |-> cell.hdr, off |-> cell.off,
           scmphdr |-> ScmpHdr(cell.kind),
-          quote |-> ImplQuoteLen(cell.kind, cell.hdr, cell.off, BROKENQ),
-          total |-> ImplTotal(cell.kind, cell.hdr, cell.off, BROKENQ)]
-       ELSE IF TABLE = "reply" THEN
-         [t |-> cell.t, have |-> cell.have, trunc |-> cell.trunc, ck |-> cell.ck, rev |-> cell.rev, addr |-> cell.addr,
+          quote |-> ImplQuoteLen(cell.kind, cell.hdr, cell.off, FALSE),
+          total |-> ImplTotal(cell.kind, cell.hdr, cell.off, FALSE)]
+       ELSE IF IsReply THEN
+         [tab |-> cell.tab, t |-> cell.t, have |-> cell.have, trunc |-> cell.trunc, ck |-> cell.ck, rev |-> cell.rev, addr |-> cell.addr,
           class |-> Class(Desc(cell)),
           replies |-> EchoHandler(Desc(cell)), notified |-> ErrorHandler(Desc(cell)),
           must_answer |-> PMustAnswerEcho(Desc(cell)), must_not_answer |-> PMustNotAnswer(Desc(cell)),
           must_notify |-> PMustNotify(Desc(cell))]
        ELSE
-         [scmp |-> cell.scmp, t |-> cell.t, have |-> cell.have, ck |-> cell.ck,
+         [tab |-> cell.tab, scmp |-> cell.scmp, t |-> cell.t, have |-> cell.have, ck |-> cell.ck,
           answers |-> RouterAnswers(ODesc(cell)), must_not_answer |-> PRouterMustNotAnswer(ODesc(cell)),
           echo_answers |-> IF cell.scmp THEN RouterEcho(RDesc(cell)) ELSE 0,
+          reply_type |-> IF cell.scmp /\ RouterEcho(RDesc(cell)) = 1 THEN RouterReplyType(cell.t) ELSE 0,
           echo_must_answer |-> (cell.scmp /\ Class(RDesc(cell)) = "echo_req"),
           echo_must_not_answer |-> (cell.scmp /\ PMustNotAnswer(RDesc(cell)))]
 Emit == GEN => PrintT(<<"CELL", ToJson(Out)>>)
